@@ -74,7 +74,7 @@ func mutateExtFields(t *rapid.T, b []byte) ([]byte, string) {
 			return b, note
 		}
 		o := rapid.SampledFrom(offs).Draw(t, "field")
-		switch rapid.SampledFrom([]string{"len", "len-rel", "type", "dup", "drop", "cookie-tlv", "auth-lens", "truncate", "garbage-cookie"}).Draw(t, "edit") {
+		switch rapid.SampledFrom([]string{"len", "len-rel", "type", "dup", "drop", "cookie-tlv", "cookie-rebuilt", "cookie-rebuilt", "auth-lens", "truncate", "garbage-cookie"}).Draw(t, "edit") {
 		case "len":
 			binary.BigEndian.PutUint16(b[o+2:], uint16(rapid.SampledFrom(evilLens).Draw(t, "evillen")))
 			note += "len;"
@@ -120,6 +120,29 @@ func mutateExtFields(t *rapid.T, b []byte) ([]byte, string) {
 				}
 			}
 			note += "garbage-cookie;"
+		case "cookie-rebuilt": // a consistent cookie (key id of the live key, nonce, ciphertext) with a nonce / ciphertext of another length
+			if binary.BigEndian.Uint16(b[o:]) == 0x204 {
+				l := int(binary.BigEndian.Uint16(b[o+2:]))
+				if l >= 4+6+4+16+4 && o+l <= len(b) {
+					ck := b[o+4 : o+l]
+					nn := rapid.SampledFrom([]int{0, 1, 8, 12, 15, 17, 24, 32, 64}).Draw(t, "cookie-nonce-len")
+					cn := rapid.SampledFrom([]int{0, 1, 16, 78, 94, 95}).Draw(t, "cookie-ct-len")
+					body := bytes.Clone(ck[:6])                              // key id TLV
+					body = append(body, ck[6], ck[7], byte(nn>>8), byte(nn)) // nonce TLV header
+					body = append(body, rapid.SliceOfN(rapid.Byte(), nn, nn).Draw(t, "cookie-nonce")...)
+					body = append(body, ck[6+4+16], ck[6+4+16+1], byte(cn>>8), byte(cn)) // ciphertext TLV header
+					body = append(body, rapid.SliceOfN(rapid.Byte(), cn, cn).Draw(t, "cookie-ct")...)
+					f := make([]byte, 4+(len(body)+3)&^3)
+					copy(f, b[o:o+2])
+					binary.BigEndian.PutUint16(f[2:], uint16(len(f)))
+					if rapid.Bool().Draw(t, "exact-len") {
+						binary.BigEndian.PutUint16(f[2:], uint16(4+len(body)))
+					}
+					copy(f[4:], body)
+					b = append(append(bytes.Clone(b[:o]), f...), b[o+l:]...)
+				}
+			}
+			note += "cookie-rebuilt;"
 		case "auth-lens":
 			if binary.BigEndian.Uint16(b[o:]) == 0x404 && o+8 <= len(b) {
 				binary.BigEndian.PutUint16(b[o+4:], uint16(rapid.IntRange(0, 64).Draw(t, "noncelen")))
